@@ -14,18 +14,26 @@ Definition bs (l : list N) : string :=
 Definition tfield := field N.
 Definition tflag := flag N.
 
-(* one call of Load: the file as (index into the field table, value) — written by the harness under the
-   field's YAML key —, the flags given as (index into the flag table, value), the home directory token,
-   and the Config that came back projected to the field table's order (None = Load returned an error) *)
-Record loadobs := { lo_file : list (N * N); lo_args : list (N * N); lo_home : N; lo_obs : option (list N) }.
+(* one call of Load in a home whose config directory holds: the configuration file config_name —
+   [lo_main] = 0 absent, 1 a YAML document with the entries [lo_file] as (index into the field table, value),
+   written by the harness under the field's YAML key, 2 content that is not a YAML document — and the OTHER files
+   [lo_sibs] = (file name, Some entries = a document that parses as YAML into those entries | None = anything
+   else: TOML / properties text, junk, unreadable, a sub-directory); the flags given as (index into the flag
+   table, value), the home directory token, and the Config that came back projected to the field table's order
+   (None = Load returned an error) *)
+Definition sib := (string * option (list (N * N)))%type.
+Record loadobs := { lo_main : N; lo_file : list (N * N); lo_sibs : list sib; lo_args : list (N * N); lo_home : N; lo_obs : option (list N) }.
 
 Inductive ccase :=
 | CTable                                                        (* the regenerated tables themselves *)
+| CName (s : string)                                            (* config.ConfigName of the tree under test *)
 | CLoads (l : list loadobs)                                     (* consecutive Loads in one process *)
-| CRound (cfg : list N) (home : N) (obs : option (list N))      (* SaveAsYaml then Load *)
-| CGenSave (g : genesis) (obs : option genesis)                 (* Genesis.Save then LoadGenesis *)
+| CRound (cfg : list N) (sibs : list sib) (home : N) (obs : option (list N))   (* other files put into <home>/config, SaveAsYaml, then Load *)
+| CGenNew (c : string) (t : Z) (i : N) (p : option N) (obs : option genesis)   (* NewGenesis c i t p, Save, then LoadGenesis *)
+| CGenCreate (c : string) (now : Z) (i : N) (p : option N) (ok1 ok2 : bool) (obs : option genesis)
+                                                                (* CreateGenesis twice on a fresh home (did each write?), then LoadGenesis *)
 | CGenLoad (f : gfile) (obs : option genesis)                   (* LoadGenesis on a given file *)
-| CGenSeq (ws : list gfile) (obs : option genesis).             (* writes to ONE path in order (GJson g = Save g, GMalformed = foreign content), then LoadGenesis *)
+| CGenSeq (ws : list gfile) (obs : option genesis).             (* writes to ONE path in order (GJson (gnew ..) = Save of NewGenesis .., GMalformed = foreign content), then LoadGenesis *)
 
 Fixpoint list_eqb {A} (e : A -> A -> bool) (a b : list A) : bool :=
   match a, b with
@@ -49,18 +57,33 @@ Definition file_of (fields : list tfield) (l : list (N * N)) : cfile N :=
 Definition args_of (flags : list tflag) (l : list (N * N)) : cargs N :=
   map (fun e => (g_name (nth (N.to_nat (fst e)) flags dummy_flag), snd e)) l.
 
+Definition sibs_of (fields : list tfield) (l : list sib) : cdir N :=
+  map (fun e => (fst e, match snd e with Some ents => DYaml (file_of fields ents) | None => DOpaque end)) l.
+Definition main_of (fields : list tfield) (main : N) (file : list (N * N)) : cdir N :=
+  match main with
+  | 0%N => []
+  | 1%N => [(config_name, DYaml (file_of fields file))]
+  | _ => [(config_name, DOpaque)]
+  end.
+(* the directory: the other files in the order the harness created them, half of them before the
+   configuration file and half after (the order is immaterial — Proofs.siblings_ignored — and the
+   evaluation shows it on the concrete case) *)
+Definition dir_of (fields : list tfield) (main : N) (file : list (N * N)) (sibs : list sib) : cdir N :=
+  let k := Nat.div2 (List.length sibs) in
+  (sibs_of fields (firstn k sibs) ++ main_of fields main file ++ sibs_of fields (skipn k sibs))%list.
+
 Definition load_agrees (fields : list tfield) (flags : list tflag) (o : loadobs) : bool :=
   opt_eqb (list_eqb N.eqb)
-    (Some (load fields flags (file_of fields (lo_file o)) (args_of flags (lo_args o)) (lo_home o)))
+    (Some (load_dir config_name fields flags (dir_of fields (lo_main o) (lo_file o) (lo_sibs o)) (args_of flags (lo_args o)) (lo_home o)))
     (lo_obs o).
 
 Definition is_nil {A} (l : list A) : bool := match l with [] => true | _ => false end.
 
-(* 1 = a Load differs; 2 = save/load differs; 3 = genesis differs;
+(* 1 = a Load differs; 2 = save/load differs; 3 = genesis differs; 4 = CreateGenesis wrote / refused differently;
    10.. = the regenerated tables violate a condition the theorems need:
    10 a registered flag reaches no field of its type, 11 a field has no file key, 12 a flag's default differs
    from DefaultConfig, 13 yaml key <> mapstructure key, 14 a field key starts with "rollkit.", 15 duplicate
-   field keys, 16 two flags bound to one key *)
+   field keys, 16 two flags bound to one key, 17 the configuration file is not called config_name *)
 Definition check_case (fields : list tfield) (flags : list tflag) (c : ccase) : list N :=
   match c with
   | CTable =>
@@ -71,10 +94,16 @@ Definition check_case (fields : list tfield) (flags : list tflag) (c : ccase) : 
       (if is_nil (prefixed_fields fields) then [] else [14%N]) ++
       (if nodupb (map f_path (filter settable fields)) then [] else [15%N]) ++
       (if nodupb (map (fun g => strip (g_name g)) flags) then [] else [16%N])
+  | CName s => if String.eqb s config_name then [] else [17%N]
   | CLoads l => if forallb (load_agrees fields flags) l then [] else [1%N]
-  | CRound cfg home obs =>
-      if opt_eqb (list_eqb N.eqb) (Some (load fields flags (reread (fun x => x) true (save fields cfg)) [] home)) obs then [] else [2%N]
-  | CGenSave g obs => if opt_eqb genesis_eqb (gload (gsave g)) obs then [] else [3%N]
+  | CRound cfg sibs home obs =>
+      if opt_eqb (list_eqb N.eqb) (Some (load_dir config_name fields flags (save_dir config_name fields cfg (sibs_of fields sibs)) [] home)) obs then [] else [2%N]
+  | CGenNew c t i p obs => if opt_eqb genesis_eqb (gload (gsave (gnew c i t p))) obs then [] else [3%N]
+  | CGenCreate c now i p ok1 ok2 obs =>
+      let r1 := gcreate GAbsent c i now p in
+      let r2 := gcreate (fst r1) c i now p in
+      (if Bool.eqb (snd r1) ok1 && Bool.eqb (snd r2) ok2 then [] else [4%N]) ++
+      (if opt_eqb genesis_eqb (gload (fst r2)) obs then [] else [3%N])
   | CGenLoad f obs => if opt_eqb genesis_eqb (gload f) obs then [] else [3%N]
   | CGenSeq ws obs => if opt_eqb genesis_eqb (gload (gputs GAbsent ws)) obs then [] else [3%N]
   end.
